@@ -152,7 +152,13 @@ func (m *maxDifferenceWatermarkGenerator) Run(ctx execution.ExecutionContext, pr
 			}
 		}
 
-		curTimeValueRoundedDown := time.Unix(0, record.Values[m.timeFieldIndex].Time.UnixNano()/int64(resolution.Duration)*int64(resolution.Duration))
+		// Integer division rounds towards zero, which is up for times before 1970, so take care to round down.
+		curTimeNanos := record.Values[m.timeFieldIndex].Time.UnixNano()
+		curTimeRemainder := curTimeNanos % int64(resolution.Duration)
+		if curTimeRemainder < 0 {
+			curTimeRemainder += int64(resolution.Duration)
+		}
+		curTimeValueRoundedDown := time.Unix(0, curTimeNanos-curTimeRemainder)
 
 		if curTimeValueRoundedDown.After(maxValue) {
 			maxValue = curTimeValueRoundedDown
